@@ -933,6 +933,29 @@ class SK(object):
         l = self.ev(e.left, env)
         for op, c in zip(e.ops, e.comparators):
             r = self.ev(c, env)
+            if isinstance(op, (ast.In, ast.NotIn)) and isinstance(r, (list, tuple)) and (isinstance(l, Tok) or any(isinstance(y, Tok) for y in r)):
+                # membership in a display is equality with one of its elements
+                hit = False
+                for y in r:
+                    d_ = order_compare(l, y, ast.Eq()) if (isinstance(l, Tok) or isinstance(y, Tok)) else (l == y)
+                    if d_ is None and (isinstance(l, Sym) or isinstance(y, Sym)):
+                        # symbolic atoms stand for generic reals: equal only if identical
+                        from .poly import Poly as _P
+                        num_ = lambda v: isinstance(v, (int, float, Fraction)) and not isinstance(v, bool)
+                        pl = l if isinstance(l, Sym) else (Sym(_P.const(l)) if num_(l) else None)
+                        py = y if isinstance(y, Sym) else (Sym(_P.const(y)) if num_(y) else None)
+                        if pl is not None and py is not None:
+                            d_ = pl.same(py)
+                    if d_ is None:
+                        d_ = (l is y) or None
+                    if d_ is None:
+                        raise Unsupported('membership of an abstract float: %s' % norm(e))
+                    hit = hit or bool(d_)
+                res = hit if isinstance(op, ast.In) else not hit
+                if not res:
+                    return False
+                l = r
+                continue
             if isinstance(l, Tok) or isinstance(r, Tok):
                 dec = order_compare(l, r, op)
                 if dec is not None:
@@ -1375,6 +1398,10 @@ def _isinst(sk, n, x, t):
         return isinstance(x, int) and not isinstance(x, bool)
     if isinstance(t, Py) and t.name in ('list', 'tuple'):
         return isinstance(x, list if t.name == 'list' else tuple)
+    if isinstance(t, Py) and t.name in ('bool', 'str', 'dict', 'set'):
+        return isinstance(x, {'bool': bool, 'str': str, 'dict': dict, 'set': set}[t.name])
+    if isinstance(t, Py) and t.name == 'NoneType':
+        return x is None
     if isinstance(t, tuple) and t and t[0] == 'class':
         if isinstance(x, Bag) and '__isa__' in x._a:
             return any(t[1] in sk.m.mro(c) for c in x._a['__isa__'])        # recorder objects declare the class they stand for
@@ -1482,6 +1509,25 @@ def _sum(sk, n, x, *start):
     return sum(x, *start)
 
 
+NONETYPE = Py(lambda sk, n: None, 'NoneType')
+
+
+def _type_of(sk, n, x):
+    """type(x): the class of a class-keyed object, the builtin for plain data (an abstract float is a float)"""
+    if isinstance(x, Bag):
+        if isinstance(x._cls, tuple):
+            return ('class', x._cls)
+        raise Unsupported('type() of a stand-in object')
+    if x is None:
+        return NONETYPE
+    if isinstance(x, bool):
+        return BUILTINS['bool']
+    for t_, name in ((Tok, 'float'), (float, 'float'), (Fraction, 'float'), (int, 'int'), (str, 'str'), (list, 'list'), (tuple, 'tuple'), (dict, 'dict'), (set, 'set')):
+        if isinstance(x, t_):
+            return BUILTINS[name]
+    raise Unsupported('type() of %s' % type(x).__name__)
+
+
 def _round(sk, n, x, *a):
     if isinstance(x, Sym):
         # rounding to the full precision of a double (15 decimals and more) hands back the value; anything coarser is another number
@@ -1544,7 +1590,7 @@ BUILTINS = {
     'range': Py(lambda sk, n, *a: list(range(*a)) if all(isinstance(x, int) and not isinstance(x, bool) for x in a) else (_ for _ in ()).throw(Raised('TypeError', 'range() of %r' % (a,), n)), 'range'), 'len': Py(lambda sk, n, x: _len(sk, n, x), 'len'),
     'min': Py(_minmax(min), 'min'), 'max': Py(_minmax(max), 'max'),
     'int': Py(lambda sk, n, x=0: _int(sk, n, x), 'int'), 'float': Py(_float, 'float'),
-    'abs': Py(lambda sk, n, x: ((Gap(abs(x.mag), x.off * x.sign) if x.mag else Gap(0, abs(x.off))) if isinstance(x, Gap) else DEF()) if isinstance(x, Tok) else abs(x), 'abs'), 'round': Py(_round, 'round'),
+    'abs': Py(lambda sk, n, x: abs(x.p.const_value()) if isinstance(x, Sym) and x.q is None and x.p.is_const() else ((Gap(abs(x.mag), x.off * x.sign) if x.mag else Gap(0, abs(x.off))) if isinstance(x, Gap) else DEF()) if isinstance(x, Tok) else abs(x), 'abs'), 'round': Py(_round, 'round'),
     'zip': Py(lambda sk, n, *a: list(zip(*[sk.iterate(x, n) for x in a])), 'zip'),
     'enumerate': Py(lambda sk, n, x, *s: list(enumerate(sk.iterate(x, n), *s)), 'enumerate'),
     'isinstance': Py(_isinst, 'isinstance'), 'list': Py(lambda sk, n, *a: list(sk.iterate(a[0], n)) if a else [], 'list'), 'tuple': Py(lambda sk, n, *a: tuple(sk.iterate(a[0], n)) if a else (), 'tuple'),
@@ -1552,6 +1598,7 @@ BUILTINS = {
     'getattr': Py(lambda sk, n, ob, k, *d: _getattr(sk, n, ob, k, *d), 'getattr'),
     'hasattr': Py(lambda sk, n, ob, k: isinstance(ob, Bag) and (k in ob._a or (isinstance(ob._cls, tuple) and isinstance(k, str) and (sk.class_attr(ob._cls, k) is not NOATTR or sk.m.lookup(ob._cls, k, 'methods') is not None or sk.m.lookup(ob._cls, k, 'getters') is not None))), 'hasattr'),
     'dict': Py(lambda sk, n, *a, **k: dict(*a, **k), 'dict'), 'deepcopy': Py(_deepcopy_tracked, 'deepcopy'),
+    'type': Py(lambda sk, n, x: _type_of(sk, n, x), 'type'),
     'divmod': Py(lambda sk, n, a, b: divmod(a, b) if all(isinstance(x, (int, float)) and not isinstance(x, bool) for x in (a, b)) else DEF(), 'divmod'),
     'sum': Py(_sum, 'sum'), 'reversed': Py(lambda sk, n, x: list(reversed(x)), 'reversed'), 'sorted': Py(lambda sk, n, x, **k: _sorted(sk, n, x, **k), 'sorted'),
     'lru_cache': Py(lambda sk, n, *a, **k: _lru_cache(sk, n, *a, **k), 'lru_cache'),
